@@ -2,7 +2,7 @@
 enumerated by TLC out of specs/StmtShapes.tla, and runs them on real SQLite engines.
 
 A shape travels as its name  "k|f|c|w|d|o"  (StmtShapes!Name):
-  k  sel | orm | ins | upd | del | lam          statement kind
+  k  sel | orm | ins | upd | del | lam | ddl    statement kind (ddl: CREATE TABLE d)
   f  a | join | outer | s1 | xjoin              FROM: a / a JOIN b / a LEFT JOIN b / s1.a / a JOIN s1.a
   c  none | eq | in | eqand | orin              criteria (lam: lscalar | llist | lcol | ltab | lmulti | lwhere | lcrit)
   w  none | subq | cte | union | exists         wrapping
@@ -14,6 +14,7 @@ Nothing here decides a property: expected values always come from the TLC output
 """
 import os
 import sqlite3
+import warnings
 
 import sqlalchemy as sa
 from sqlalchemy import event
@@ -45,6 +46,9 @@ class World:
                                       sa.Column("y", sa.Integer), schema=sch)
         self.b = sa.Table("b", md, sa.Column("id", sa.Integer, primary_key=True), sa.Column("a_id", sa.ForeignKey("a.id")),
                           sa.Column("z", sa.Integer))
+        md2 = sa.MetaData()
+        self.dtabs = {sch: sa.Table("d", md2, sa.Column("id", sa.Integer, primary_key=True), sa.Column("v", sa.Integer), schema=sch)
+                      for sch in (None, "s1", "s2")}
         self.b2 = self.b.alias("b2")          # the EXISTS subquery always reads b through this alias (b itself may be in the FROM)
         self.reg = registry()
         self.reg.map_imperatively(A, self.tabs[None], properties={"bs": relationship(B, order_by=self.b.c.id)})
@@ -156,6 +160,8 @@ def build(sh, val, T=None):
     if k == "lam":
         return build_lambda(sh, val, T)[0]
     a = T("s1") if f == "s1" else T(None)
+    if k == "ddl":
+        return sa.schema.CreateTable(w.dtabs[a.schema])
     b = w.b
     bval = none0(val["b"])
     if k == "ins":
@@ -297,7 +303,14 @@ def run(conn, log, sh, stmt, opts):
     out, rows, rc = "ok", None, -1
     try:
         try:
-            if is_orm(sh):
+            if sh["k"] == "ddl":
+                conn.execute(stmt, execution_options=opts)
+                rows = []
+                for sname in ("main", "s1", "s2"):
+                    if conn.exec_driver_sql("select count(*) from %s.sqlite_master where name='d'" % sname).scalar():
+                        rows.append((OFF[sname],))
+                        conn.exec_driver_sql("drop table %s.d" % sname)      # (pysqlite runs DDL outside the transaction)
+            elif is_orm(sh):
                 with Session(conn) as s:
                     r = s.execute(stmt, execution_options=opts)
                     if sh["o"] == "joined":
@@ -323,7 +336,9 @@ def run(conn, log, sh, stmt, opts):
 def run_literal(conn, sh, stmt, smap):
     """third oracle: the statement rendered with literal_binds (and the schema map applied) executed as a plain string"""
     kw = {"literal_binds": True}
-    comp = stmt.compile(dialect=conn.dialect, compile_kwargs=kw, schema_translate_map=smap or None, render_schema_translate=bool(smap))
+    with warnings.catch_warnings():
+        warnings.simplefilter("ignore", sa.exc.SAWarning)      # (a bound NULL rendered literally warns; it is what is being compared)
+        comp = stmt.compile(dialect=conn.dialect, compile_kwargs=kw, schema_translate_map=smap or None, render_schema_translate=bool(smap))
     try:
         r = conn.exec_driver_sql(str(comp))
         rows = [tuple(x) for x in r.all()] if r.returns_rows else []
